@@ -207,9 +207,9 @@ def obligations(tier, seed):
                 obs.append(LegacyOb(k, st, 4, seed))
     else:
         # sized by wall time: the legacy leg and 6 seeded dialects on every statement; all 25 dialects on the /plain INSERTs
-        obs += [LegacyOb(k, st, 5, seed) for k, st in tpl]
+        obs += [LegacyOb(k, st, 3 if k.startswith("rand/") else 5, seed) for k, st in tpl]
         for k, st in tpl:
-            obs.append(DialectOb(k, st, rnd.sample(ALL_DIALECTS, 6), 4, seed))
+            obs.append(DialectOb(k, st, rnd.sample(ALL_DIALECTS, 6), 3 if k.startswith("rand/") else 4, seed))
         plain = [(k, st) for k, st in tpl if "/plain" in k and k.startswith("insert/")]
         for k, st in rnd.sample(plain, min(len(plain), 40)):
             obs.append(DialectOb(k, st, ALL_DIALECTS, 3, seed))
